@@ -14,11 +14,14 @@ mod c08;
 mod c09;
 mod c10;
 mod c11;
+mod c12;
 mod c13;
 mod c14;
 mod c15;
 mod c16;
+mod c17;
 mod c18;
+mod driver;
 mod frames;
 
 type RunFn = fn(&Ctx);
@@ -37,10 +40,12 @@ fn table(id: &str) -> Option<(RunFn, ReplayFn)> {
         "C09" => (c09::run, c09::replay),
         "C10" => (c10::run, c10::replay),
         "C11" => (c11::run, c11::replay),
+        "C12" => (c12::run, c12::replay),
         "C13" => (c13::run, c13::replay),
         "C14" => (c14::run, c14::replay),
         "C15" => (c15::run, c15::replay),
         "C16" => (c16::run, c16::replay),
+        "C17" => (c17::run, c17::replay),
         "C18" => (c18::run, c18::replay),
         _ => return None,
     })
